@@ -1659,7 +1659,10 @@ def tree_of(path):
                 try:
                     with open(full, "rb") as fh:
                         data = fh.read()
-                    if f.startswith("cond-archive+") and f.endswith(".tar.gz"):
+                    if f.endswith((".sqlite", ".sqlite-journal", ".sqlite-wal", ".sqlite-shm")):
+                        # page contents carry random nonces / change counters; rows are compared separately
+                        out[r] = ("f", "<sqlite>", -1)
+                    elif f.startswith("cond-archive+") and f.endswith(".tar.gz"):
                         # gzip/tar headers carry real wall-clock times: not part of the simulated state
                         out[r] = ("f", "<archive>", -1)
                     elif f in ("args.json", "options.json") and len(data) < 100000:
@@ -1673,4 +1676,8 @@ def tree_of(path):
 
 def snapshot(root):
     root = pathlib.Path(root)
-    return {"rows": read_rows(root), "tree": tree_of(root / "cond-out")}
+    snap = {"rows": read_rows(root), "tree": tree_of(root / "cond-out")}
+    outside = root.parent / "outside"
+    if outside.is_dir():
+        snap["outside"] = tree_of(outside)
+    return snap
